@@ -1444,6 +1444,11 @@ def run(prog, rep, tier):
             rep.attempt(c07.r07_2, prog, rep, rid='R07.2')
             # the winner of that arbitration releases on every path
             rep.attempt(r03_8, prog, rep)
+            # tasks handed to the collector / timeout watcher while it drains
+            # its list are not lost (a lost task is never released): the
+            # drain rule of C07 re-evaluated for the release side
+            if hasattr(c07, 'r07_8'):
+                rep.attempt(c07.r07_8, prog, rep, rid='R03.9')
     except ImportError:
         pass
 
